@@ -226,6 +226,17 @@ func c20GenEntries(t *core.Tape, k int, small bool) []c20Entry {
 				es[i].Names = append(es[i].Names, c20Word(t, c20NameAlpha, 1, 16))
 			}
 		}
+		if !small && i > 0 {
+			// duplicates are legal: an accession seen before, or the very same entry again
+			switch t.Weighted(88, 6, 6) {
+			case 1:
+				es[i].Accessions[0] = es[i-1].Accessions[0]
+			case 2:
+				j := t.Draw(i)
+				es[i].Accessions = append([]string{}, es[j].Accessions...)
+				es[i].Names = append([]string{}, es[j].Names...)
+			}
+		}
 		if small {
 			nn, na = 1, 1
 			es[i].Accessions = es[i].Accessions[:1]
